@@ -35,6 +35,7 @@ type cfg struct {
 	Events    int  // max number of non-tick events in a history
 	WriteFail bool // the first datagram write fails with a transient error (the call returns an error at once)
 	Deadline  bool // the request context carries a deadline far beyond the retransmission span (instead of a plain cancel context)
+	DTLS      bool // over the real dtls/server.Session
 	BodyPeek  bool // the request has a payload whose reader the application has already read 4 bytes of
 }
 
@@ -45,6 +46,9 @@ func (c cfg) String() string {
 	}
 	if c.BodyPeek {
 		x += " payload-reader-at-offset-4"
+	}
+	if c.DTLS {
+		x += " transport=dtls-session"
 	}
 	return fmt.Sprintf("udp-conn CON Do: ACK_TIMEOUT=%v MAX_RETRANSMIT=%d NSTART=%d requests=%d events<=%d first-write-fails=%v%s", T, c.R, c.NStart, map[bool]int{false: 1, true: 2}[c.Two], c.Events, c.WriteFail, x)
 }
@@ -77,7 +81,7 @@ func scenario(c cfg) *mcx.Scenario {
 			reqs := make([]*reqState, nreq)
 			t0 := vrt.Now()
 			vrt.App("env", func() {
-				w = udpw.New(udpw.Opts{NStart: c.NStart, MaxRetransmit: c.R, AckTimeout: T, LimitTotal: 4, LimitEndpoint: 4})
+				w = udpw.New(udpw.Opts{NStart: c.NStart, MaxRetransmit: c.R, AckTimeout: T, LimitTotal: 4, LimitEndpoint: 4, DTLS: c.DTLS})
 				if c.WriteFail {
 					failed := false
 					w.Sess.WriteErr = func(m *pool.Message) error {
@@ -308,6 +312,7 @@ func main() {
 	scs = append(scs, scenario(cfg{R: 4, NStart: 1, Events: ev.Pick(r, 2, 3)}))
 	scs = append(scs, scenario(cfg{R: 2, NStart: 1, Events: 1, WriteFail: true}))
 	scs = append(scs, scenario(cfg{R: 2, NStart: 1, Events: ev.Pick(r, 2, 3), Deadline: true}))
+	scs = append(scs, scenario(cfg{R: 1, NStart: 1, Events: ev.Pick(r, 2, 3), DTLS: true}))
 	scs = append(scs, scenario(cfg{R: 1, NStart: 1, Events: ev.Pick(r, 1, 2), BodyPeek: true}))
 	for _, ns := range []uint32{1, 2} {
 		scs = append(scs, scenario(cfg{R: 1, NStart: ns, Two: true, Events: ev.Pick(r, 2, 3)}))
